@@ -265,6 +265,10 @@ class Gen:
             if not self.bias.get("noindex"):
                 # reading beyond the current length yields whatever the storage holds (representation dependent)
                 atoms.append("%s[%d]" % (s["name"], r.choice((0, 0, 1, s["size"] - 1))))
+                if self.ints:
+                    # variable (possibly negative or too large) index: the bounds check must make it read 0
+                    atoms.append("%s[%s]" % (s["name"], r.choice(self.ints)))
+                    atoms.append("%s[%s - %d]" % (s["name"], r.choice(self.ints), r.choice((1, 3, 300))))
         a = r.choice(atoms)
         k = r.random()
         if k < 0.35:
@@ -322,7 +326,7 @@ class Gen:
             return "%s();" % r.choice(self.hooks)
         if k == "seti":
             n = r.choice(self.ints)
-            return "%s = %s;" % (n, r.choice(("%d" % r.choice((0, 1, 42, -3)), self.int_expr(n))))
+            return "%s = %s;" % (n, r.choice(("%d" % r.choice((0, 1, 42, -3, -1)), self.int_expr(n))))
         if k == "incr":
             n = r.choice(self.ints)
             return "%s = [%s + 1];" % (n, n)
@@ -415,7 +419,7 @@ class Gen:
         r = self.r
         kinds = ["optional", "case", "case", "loop", "loop", "try", "try", "foreach", "if", "if"]
         if self.ycodes:
-            kinds += ["greedy"]
+            kinds += ["greedy", "condfin"]
         if self.bias.get("liveness"):
             kinds += ["nearmiss"] * 4
         if self.bias.get("oos") and self.strs:
@@ -424,6 +428,17 @@ class Gen:
             kinds += ["endcase"]
         k = r.choice(kinds)
         ind = lambda ls: ["    " + x for x in ls]
+        if k == "condfin":
+            # a conditional finish and a yield attached to the same match
+            a = self.atom(blocked, ("lit", "cls", "rep"))
+            fin = "finish %s;" % self.fcodes[0] if self.fcodes else "finish;"
+            self.uses_yield = True
+            order = r.random() < 0.7
+            acts = ["if %s { %s }" % (self.cond_expr(), fin), "yield %s;" % r.choice(self.ycodes)]
+            if not order:
+                acts.reverse()
+            x = self.action(allow_flow=False)
+            return (["%s;" % a.text] + ([x] if x and r.random() < 0.5 else []) + acts, a.first, a.open, a.sample, True)
         if k == "optional":
             body, f, o, smp, c = self.seq(depth, blocked, in_loop, 1, 3, must_consume_first=True, breakable=breakable)
             take = r.random() < 0.6
@@ -925,7 +940,9 @@ def generate_lifecycle(rng, noindex=False):
         strs.append({"name": "s%d" % i, "size": size, "unterm": unterm, "cap": cap})
         decl.append("out int{size 1} zc%d = 90;" % i)
         g.canaries["zc%d" % i] = 90
-    decl += ["out int n0 = 0;", "out int n1 = 0;", "out bool b0 = false;", "hook h0;", "hook h1;"]
+    wide = r.random() < 0.5
+    decl += ["out int n0 = 0;", "out int%s n1 = 0;" % ("{size 8}" if wide else r.choice(("", "{size 2}", "{unsigned}"))),
+             "out bool b0 = false;", "hook h0;", "hook h1;"]
     body = []
     sample = b""
     marks = [c for c in PUNCT]
@@ -957,7 +974,8 @@ def generate_lifecycle(rng, noindex=False):
             body += ["try { %s += /[%s]+/; \"|\"; } catch (outofspace) { delete %s; wait \"|\"; }" % (name, chr(a), name)]
             sample += bytes([a]) * r.choice((1, s["cap"], s["cap"] + 2)) + b"|"
         for _ in range(r.choice((1, 2))):
-            use = r.choice(("append", "append", "appc", "assign", "len" if noindex else "index", "len", "hook"))
+            use = r.choice(("append", "append", "appc", "assign", "len" if noindex else "index", "len", "hook",
+                            "hook" if noindex else "indexvar"))
             if use == "append":
                 lo = r.choice((97, 103, 109))
                 body.append("%s += /[%s-%s]+/;" % (name, chr(lo), chr(lo + 5)))
@@ -969,6 +987,9 @@ def generate_lifecycle(rng, noindex=False):
                 body.append("%s = %s;" % (name, esc_str([r.choice(LETTERS) for _ in range(r.randrange(0, s["cap"] + 1))])))
             elif use == "index":
                 body.append("n1 = [%s[%d] + %s.len];" % (name, r.choice((0, 1, s["size"] - 1)), name))
+            elif use == "indexvar":
+                # an index computed at run time, below zero or beyond the end: the bounds check must make it read 0
+                body.append("n0 = [%s[n1 %s %d] + 1];" % (name, r.choice(("-", "-", "+")), r.choice((1, 3, 8, 300, 70000))))
             elif use == "len":
                 body.append("if %s.len > 0 { h1(); }" % name)
             else:
